@@ -52,7 +52,7 @@ theorem stepRel_RF (now : Int) : StepRel now (fun _ => True) (fun _ => True) RF 
   trig := by
     intro t d _ _ _ hr
     refine ⟨rfl, rfl, rfl, ?_, ?_, (fun h => by rw [hr] at h; cases h), ?_, ?_, ?_⟩
-    · simp only [trigSelf, noteTriggered, markTriggered]; split <;> omega
+    · cases hf : d.fixed <;> cases hq : d.quiet <;> simp [trigSelf, noteTriggered, markTriggered, hf, hq]
     · simp [trigSelf, noteTriggered, markTriggered]
     · intro h; simp [trigSelf, noteTriggered, markTriggered, h]
     · intro hf _ _
@@ -63,8 +63,7 @@ theorem stepRel_RF (now : Int) : StepRel now (fun _ => True) (fun _ => True) RF 
   start := by
     intro d _ hf _ hr
     refine ⟨rfl, rfl, rfl, ?_, ?_, (fun h => by rw [hr] at h; cases h), ?_, ?_, ?_⟩
-    · simp only [startSelf, trigSelf, noteTriggered, markTriggered, noteStarted]
-      split <;> split <;> omega
+    · cases hq : d.quiet <;> simp [startSelf, trigSelf, noteTriggered, markTriggered, noteStarted, hf, hq]
     · simp [startSelf, trigSelf, noteTriggered, markTriggered, noteStarted]
     · intro h; simp [startSelf, trigSelf, noteTriggered, markTriggered, noteStarted, h]
     · intro hf'; rw [hf] at hf'; cases hf'
@@ -283,7 +282,7 @@ theorem chkStarted_model : chkStarted sp op (stepObs st op).2 = true := by
         | true => simp
         | false =>
           rcases x' (by rw [← v2]; exact hfx) (by rw [← ht]; exact h0) with h | h
-          · simp [v10]; right; right; right; exact h
+          · simp [v10]; exact Or.inr h
           · rw [he] at h; cases h
 
 /-- No DowntimeEnd of a flexible downtime without its DowntimeStart (unless excused). -/
@@ -310,7 +309,7 @@ theorem chkEndHasStart_model : chkEndHasStart sp op (stepObs st op).2 = true := 
       | true => simp
       | false =>
         rcases x' (by rw [← v2]; exact hfx) htr with h | h
-        · simp [v10]; right; right; exact h
+        · simp [v10]; exact Or.inr h
         · rw [hex] at h; cases h
   · have : d'.ends - d.ends = 0 := by omega
     simp [this]
